@@ -110,4 +110,152 @@ theorem asNative_no_panic (x : IrValue) (s : String) : asNative x ≠ .error (.p
 theorem asBytes_no_panic (x : IrValue) (s : String) : asBytes x ≠ .error (.panic s) := by
   cases x <;> simp [asBytes]
 
+theorem Except.map_ok_iff {α β : Type} (f : α → β) (x : Except Err α) (b : β) :
+    x.map f = .ok b ↔ ∃ a, x = .ok a ∧ f a = b := by
+  cases x <;> simp [Except.map]
+
+theorem opOff_spec (H : Hashes) (w : Witness) (i : Instr) (inps : List IrValue)
+    (ha : i.arityOk = true) (hl : inps.length = i.ins.length) :
+    (∀ s, opOff H w i inps ≠ .error (.panic s)) ∧
+    (∀ outs pub, opOff H w i inps = .ok (outs, pub) → outs.length = i.outs.length) := by
+  obtain ⟨op, ins, outs⟩ := i
+  simp only [Instr.arityOk, Bool.and_eq_true] at ha
+  obtain ⟨hin, hout⟩ := ha
+  cases op <;> simp only [Op.inputArity, Op.outputArity, Arity.admits, beq_iff_eq, bne_iff_ne,
+    Bool.and_eq_true, ne_eq] at hin hout
+  case load t =>
+    simp only [opOff]
+    constructor
+    · intro s
+      split
+      · next e h => intro h'; cases h'; exact mapE_no_panic _ s (fun n => getT_no_panic w t n s) _ h
+      · split
+        · next e h => intro h'; cases h'; exact loadOff_no_panic _ _ s h
+        · simp
+    · intro o p
+      split
+      · simp
+      · next vs hvs =>
+        split
+        · simp
+        · next vs' hl' =>
+          intro h; cases h
+          have := mapE_length _ _ _ hvs
+          unfold loadOff at hl'
+          split at hl'
+          · cases hl'
+          · split at hl'
+            · cases hl'
+            · cases hl'; exact this
+  case publish =>
+    simp [opOff]; omega
+  case assertEq | assertNe =>
+    obtain ⟨a, b, rfl⟩ := len2 (hl.trans hin.symm)
+    simp only [opOff]
+    constructor
+    · intro s; split <;> simp
+    · intro o p; split <;> intro h <;> cases h
+      simpa using hout
+  case isEq =>
+    obtain ⟨a, b, rfl⟩ := len2 (hl.trans hin.symm)
+    simp [opOff]; omega
+  case add =>
+    obtain ⟨a, b, rfl⟩ := len2 (hl.trans hin.symm)
+    simp only [opOff]
+    exact ⟨fun s => Except.map_ne_panic _ _ s (addOff_no_panic a b s),
+      fun o p h => by obtain ⟨r, _, hr⟩ := (Except.map_ok_iff _ _ _).1 h; cases hr; simp; omega⟩
+  case sub =>
+    obtain ⟨a, b, rfl⟩ := len2 (hl.trans hin.symm)
+    simp only [opOff]
+    exact ⟨fun s => Except.map_ne_panic _ _ s (subOff_no_panic a b s),
+      fun o p h => by obtain ⟨r, _, hr⟩ := (Except.map_ok_iff _ _ _).1 h; cases hr; simp; omega⟩
+  case mul =>
+    obtain ⟨a, b, rfl⟩ := len2 (hl.trans hin.symm)
+    simp only [opOff]
+    exact ⟨fun s => Except.map_ne_panic _ _ s (mulOff_no_panic a b s),
+      fun o p h => by obtain ⟨r, _, hr⟩ := (Except.map_ok_iff _ _ _).1 h; cases hr; simp; omega⟩
+  case neg =>
+    obtain ⟨a, rfl⟩ := len1 (hl.trans hin.symm)
+    simp only [opOff]
+    exact ⟨fun s => Except.map_ne_panic _ _ s (negOff_no_panic a s),
+      fun o p h => by obtain ⟨r, _, hr⟩ := (Except.map_ok_iff _ _ _).1 h; cases hr; simp; omega⟩
+  case modExp n =>
+    obtain ⟨a, b, rfl⟩ := len2 (hl.trans hin.symm)
+    simp only [opOff]
+    exact ⟨fun s => Except.map_ne_panic _ _ s (modExpOff_no_panic a b n s),
+      fun o p h => by obtain ⟨r, _, hr⟩ := (Except.map_ok_iff _ _ _).1 h; cases hr; simp; omega⟩
+  case innerProduct =>
+    simp only [opOff]
+    exact ⟨fun s => Except.map_ne_panic _ _ s (innerProductOff_no_panic _ _ s),
+      fun o p h => by obtain ⟨r, _, hr⟩ := (Except.map_ok_iff _ _ _).1 h; cases hr; simp; omega⟩
+  case affine =>
+    obtain ⟨a, rfl⟩ := len1 (hl.trans hin.symm)
+    simp only [opOff]
+    exact ⟨fun s => Except.map_ne_panic _ _ s (affineOff_no_panic a s),
+      fun o p h => by obtain ⟨r, _, hr⟩ := (Except.map_ok_iff _ _ _).1 h; cases hr; simp; omega⟩
+  case intoBytes n =>
+    obtain ⟨a, rfl⟩ := len1 (hl.trans hin.symm)
+    simp only [opOff]
+    exact ⟨fun s => Except.map_ne_panic _ _ s (intoBytesOff_no_panic a n s),
+      fun o p h => by obtain ⟨r, _, hr⟩ := (Except.map_ok_iff _ _ _).1 h; cases hr; simp; omega⟩
+  case fromBytes t =>
+    obtain ⟨a, rfl⟩ := len1 (hl.trans hin.symm)
+    cases a <;> simp only [opOff]
+    case bytes bs =>
+      exact ⟨fun s => Except.map_ne_panic _ _ s (fromBytesOff_no_panic t bs s),
+        fun o p h => by obtain ⟨r, _, hr⟩ := (Except.map_ok_iff _ _ _).1 h; cases hr; simp; omega⟩
+    all_goals simp
+  case poseidon =>
+    simp only [opOff]
+    constructor
+    · intro s; split
+      · next e h => intro h'; cases h'; exact mapE_no_panic _ s (fun a => asNative_no_panic a s) _ h
+      · simp
+    · intro o p; split <;> intro h <;> cases h
+      simpa using hout
+  case sha256 =>
+    obtain ⟨a, rfl⟩ := len1 (hl.trans hin.symm)
+    simp only [opOff]
+    exact ⟨fun s => Except.map_ne_panic _ _ s (asBytes_no_panic a s),
+      fun o p h => by obtain ⟨r, _, hr⟩ := (Except.map_ok_iff _ _ _).1 h; cases hr; simp; omega⟩
+  case sha512 =>
+    obtain ⟨a, rfl⟩ := len1 (hl.trans hin.symm)
+    simp only [opOff]
+    exact ⟨fun s => Except.map_ne_panic _ _ s (asBytes_no_panic a s),
+      fun o p h => by obtain ⟨r, _, hr⟩ := (Except.map_ok_iff _ _ _).1 h; cases hr; simp; omega⟩
+
+
+theorem resolveOff_no_panic (mem : List (String × IrValue)) (n : String) (s : String) :
+    resolveOff mem n ≠ .error (.panic s) := by
+  unfold resolveOff
+  split
+  · simp
+  · split <;> simp
+
+/-- An arity-checked instruction never reaches an index / length panic off-circuit. -/
+theorem stepOff_no_panic (H : Hashes) (w : Witness) (st : OffState) (i : Instr)
+    (ha : i.arityOk = true) (s : String) : stepOff H w st i ≠ .error (.panic s) := by
+  unfold stepOff
+  split
+  · next e h => intro h'; cases h'; exact mapE_no_panic _ s (fun n => resolveOff_no_panic _ n s) _ h
+  · next inps hin =>
+    have hl := mapE_length _ _ _ hin
+    have hs := opOff_spec H w i inps ha hl
+    split
+    · next e h => intro h'; cases h'; exact hs.1 s h
+    · next outs pub h =>
+      have := hs.2 outs pub h
+      split
+      · next e h2 => intro h'; cases h'; exact insertMany_no_panic _ _ _ s this.symm h2
+      · simp
+
+theorem runOff_no_panic (H : Hashes) (w : Witness) (s : String) :
+    ∀ (p : Program) (st : OffState), (∀ i ∈ p, i.arityOk = true) → runOff H w st p ≠ .error (.panic s)
+  | [], st, _ => by simp [runOff]
+  | i :: rest, st, h => by
+    unfold runOff
+    split
+    · next e he => intro h'; cases h'; exact stepOff_no_panic H w st i (h i (by simp)) s he
+    · exact runOff_no_panic H w s rest _ (fun j hj => h j (by simp [hj]))
+
 end MidnightZK.C18
